@@ -247,12 +247,14 @@ from . import rules_tables as RT
 
 
 @prop("C15", "proof",
-      "Enumerated proof obligations over the five merge() methods, all decided syntactically/with the flow walk: (guard-first) the "
-      "compatibility test is the first statement, has no calls, raises TypeError, and the only kernel call comes after it, so a "
-      "refused merge executes nothing that writes either operand; (guard-set) the set of compared attributes equals the set derived "
-      "from the constructor signature (minus phi, plus the counter-type discriminator): no required parameter is missing and no extra "
-      "comparison refuses compatible sketches; (guard-order) the discriminator is compared before attributes a linear sketch lacks; "
-      "(ctor-attr) each compared attribute is the same-named constructor parameter as a NumPy scalar. All obligations must be discharged.",
+      "Enumerated proof obligations over the five merge() methods, decided on the paths of the flow walk (helpers, flags, inverted "
+      "branches and temporaries make no difference): (guard-set) on every path that reaches the merge kernel every required attribute -- "
+      "the set derived from the constructor signature, minus phi, plus the counter-type discriminator -- was decided equal, and a refusal "
+      "is reached only through an inequality of a required attribute (no extra comparison refuses compatible sketches); (guard-first) a "
+      "refusal raises TypeError and nothing is written on its path, nor between the guard and the kernel; (guard-order) an attribute a "
+      "linear sketch lacks is loaded from `other` only where the discriminator is already known equal, including inside the refusal "
+      "message; (ctor-attr, attr-type) each compared attribute is the same-named constructor parameter as a NumPy scalar of the width "
+      "its consumers expect. All obligations must be discharged.",
       trusted=("NumPy scalar != is value comparison", "Python `or` short-circuits left to right"))
 def c15(ctx):
     RT.rule_mergeguard(ctx)
@@ -472,7 +474,9 @@ def c06(ctx):
       "own row (msum, range, mono, cover); both bookkeeping counters are summed once (sumcounters); the log merges decode both operands "
       "with the same (num_reserved, base), store the exact sum in the reserved range, the ceiling at v >= max_count, and otherwise "
       "choose between clower and clower+1 by a half-way test, clower being the inverse of the decoder's geometric sum (logmerge-shape); "
-      "merge() guards come first (guard-first/guard-set). NOT decided: floating-point accuracy of the re-encoding, monotonicity of merged log counters.")
+      "the merge() wrappers run their kernel exactly once and neither rebind nor write the tables themselves (wrapper-once, state-owner). "
+      "The property is stated for same-parameter sketches; refusing others is C15. NOT decided: floating-point accuracy of the re-encoding, "
+      "monotonicity of merged log counters.")
 def c09(ctx):
     F = facts_of(ctx)
     RA.rule_bind(ctx, COUNTMIN)
@@ -563,8 +567,8 @@ def c08(ctx):
 
 @prop("C19", "other",
       "Error discipline of the worker loop and a must-raise path rule for dead workers, decided structurally: the callback call is "
-      "inside a try whose handler catches Exception, neither re-raises nor leaves the loop, sets the item's record count to literal 0, "
-      "and the accumulation after the try is shared by both paths (cb-guard); the monitor inspects the exit code of every started worker "
+      "inside a try whose handler catches Exception and neither re-raises nor leaves the loop, and on every path that went through "
+      "the handler the iteration ends normally having added exactly 0 records (cb-guard); the monitor inspects the exit code of every started worker "
       "and treats every non-zero, non-None code as failure (dead-detect); on failure all workers and the filler are killed before the "
       "unconditional joins (dead-cleanup); from the failure branch every path to a return passes through a raise -- explicit, or a put on "
       "a queue the branch closed (queue typestate open->closed; put on closed raises ValueError) (dead-raise). Not decided: wall-clock "
